@@ -52,6 +52,7 @@ CONSTANTS Ops,      \* operations to enumerate
                        \* AppendRegular returns an error, also when only the second transaction failed (see Deviation);
                        \* TRUE = the proposed fix (no rescue once the first transaction has committed)
           ErrThenKill, \* TRUE: also enumerate "step k fails, the operation is answered, then the process is killed"
+          BigN,     \* size of the connector batch of operation CONN_CREATE_BIG (the code stores and inserts in chunks of 1000)
           Emit      \* TRUE: print every terminal state as JSON
 
 Recovery == "Recovered Messages"
@@ -59,7 +60,12 @@ Recovery == "Recovered Messages"
 \* message ids; Content maps an id to the bytes it carries (r1 is the copy of the APPEND literal that
 \* ends up in the recovery mailbox, m1b the new incarnation of m1 after MessageUpdated, r0 a message rescued
 \* into the recovery mailbox earlier, n0 its new incarnation when it is moved / copied out of there)
+\* b1 .. b<BigN>: the messages of one big MessagesCreated batch (each carries its own name as content)
+BigId(i) == "b" \o ToString(i)
+BigIds == [i \in 1..BigN |-> BigId(i)]
+Chunk == 1000
 Content == [m1 |-> "m1", m2 |-> "m2", m3 |-> "m3", m4 |-> "m4", m5 |-> "m5", m1b |-> "m1v2", r1 |-> "m4", r0 |-> "m0", n0 |-> "m0"]
+           @@ [x \in {BigId(i) : i \in 1..BigN} |-> x]
 \* the connector can be asked for the literal of every message except recovered ones (state.getLiteral)
 Redownloadable(id) == id \notin {"r0", "r1"} /\ Design # "row_first"
 
@@ -80,6 +86,8 @@ Get(m) == S("store.Get", "get", "", "", <<m>>, {})
 CreateAdd(box, m, fl) == S("tx.CreateMessageAndAddToMailbox", "createAdd", box, "", <<m>>, fl)
 CreateMsg(m, fl)      == S("tx.CreateMessages", "createMsg", "", "", <<m>>, fl)
 Add(box, m)           == S("tx.AddMessagesToMailbox", "add", box, "", <<m>>, {})
+CreateMsgs(ms)        == S("tx.CreateMessages", "createMsgs", "", "", ms, {})       \* one call, many messages
+AddMany(box, ms)      == S("tx.AddMessagesToMailbox", "addMany", box, "", ms, {})   \* one call, many messages
 Remove(box, m)        == S("tx.RemoveMessagesFromMailbox", "remove", box, "", <<m>>, {})
 MkBox(name)           == S("tx.CreateMailboxIfNotExists", "mkbox", name, "", NoMs, {})
 RmBox(name)           == S("tx.DeleteMailboxWithRemoteID", "rmbox", name, "", NoMs, {})
@@ -149,6 +157,15 @@ StepsOf(op) ==
          \o H(<<Rd("tx.GetMailboxIDFromRemoteID"), Rd("tx.GetMailboxIDFromRemoteID"), Set("m5"), CreateMsg("m5", {"Flagged"}),
                 Rd("tx.MailboxFilterContains"), Rd("tx.GetMailboxMessageCountAndUID"), Add("A", "m5"),
                 Rd("tx.MailboxFilterContains"), Rd("tx.GetMailboxMessageCountAndUID"), Add("B", "m5"), Commit>>, "cleanup")
+    [] op = "CONN_CREATE_BIG" -> \* MessagesCreated with BigN new messages for B: the literals are stored and the rows created chunk by
+                                 \* chunk (1000 at a time; the store calls of a chunk run in parallel), then ONE AddMessagesToMailbox
+         LET c1 == SubSeq(BigIds, 1, IF BigN < Chunk THEN BigN ELSE Chunk)
+             c2 == SubSeq(BigIds, Chunk + 1, BigN)
+         IN H(<<Begin, Rd("tx.GetMessageIDFromRemoteID"), Rd("tx.GetMailboxIDFromRemoteID")>>
+              \o [i \in 1..(BigN - 1) |-> Rd("tx.GetMessageIDFromRemoteID")], "cleanupBig")
+            \o H([i \in 1..Len(c1) |-> Set(c1[i])] \o <<CreateMsgs(c1)>>
+                 \o (IF c2 = <<>> THEN <<>> ELSE [i \in 1..Len(c2) |-> Set(c2[i])] \o <<CreateMsgs(c2)>>)
+                 \o <<Rd("tx.MailboxFilterContains"), Rd("tx.GetMailboxMessageCountAndUID"), AddMany("B", BigIds), Commit>>, "cleanupBig")
     [] op = "CONN_UPDATE" -> \* MessageUpdated(m1, new literal): the old row is marked deleted, a new message takes its place
          <<Begin, Soft(Get("m1")), Rd("tx.GetMessageMailboxIDs"), Remove("A", "m1"),
            Mark("tx.MarkMessageAsDeletedAndAssignRandomRemoteID", "m1"), CreateMsg("m1b", {"Seen"}), Set("m1b"),
@@ -165,6 +182,7 @@ Handler(op, h) ==
     [] h = "flush"   -> EmptyTx                                   \* handleSelectedCommand: flush(false) also after a failure
     [] h = "unsub"   -> <<Nop("tx.RemoveDeletedSubscriptionWithName")>>   \* finds none -> ErrNoSuchMailbox -> rollback (modelled before it)
     [] h = "cleanup" -> <<Del("m5")>>                             \* applyMessagesCreated: delete the files written so far
+    [] h = "cleanupBig" -> [i \in 1..BigN |-> Del(BigIds[i])]      \* ... one DeleteUnchecked per message of the batch
     [] h = "recover" -> <<Begin, Set("r1"), CreateAdd(Recovery, "r1", {}), Commit, Begin, Commit>>  \* Mailbox.Append
 
 AckOnError(op) == IF op = "RELEASE" THEN "OK" ELSE "NO"       \* a released session just sees its connection closed
@@ -197,6 +215,10 @@ Stmt(d, s) ==
                    !.boxes[s.a].msgs = Append(@, Ent(d.boxes[s.a].next, s.ms[1], FALSE)),
                    !.boxes[s.a].next = @ + 1]
     [] s.k = "createMsg" -> [d EXCEPT !.rows = (s.ms[1] :> Row(s.fl)) @@ @]
+    [] s.k = "createMsgs" -> [d EXCEPT !.rows = [m \in Range(s.ms) |-> Row(s.fl)] @@ @]
+    [] s.k = "addMany" ->
+         [d EXCEPT !.boxes[s.a].msgs = @ \o [i \in 1..Len(s.ms) |-> Ent(d.boxes[s.a].next + i - 1, s.ms[i], FALSE)],
+                   !.boxes[s.a].next = @ + Len(s.ms)]
     [] s.k = "add" ->
          [d EXCEPT !.boxes[s.a].msgs = Append(@, Ent(d.boxes[s.a].next, s.ms[1], FALSE)),
                    !.boxes[s.a].next = @ + 1]
@@ -272,6 +294,18 @@ Init == /\ op \in Ops
 
 Running == mode \in {"run", "err"}
 
+\* Where faults are injected.  Every step of every operation - except in the big batch, whose ~3 BigN steps are sampled at
+\* the chunk boundaries: kills in front of the first / last store call of a chunk and of every later statement; errors only
+\* at the statements that run alone (the store calls of a chunk run in parallel: which of them are still reached after one
+\* failed is up to the scheduler)
+AtChunkEdge(l, i) == l[i].k = "set" /\ (i = 1 \/ l[i - 1].k # "set" \/ i = Len(l) \/ l[i + 1].k # "set")
+FaultPoint(kind) ==
+  op # "CONN_CREATE_BIG" \/
+    CASE list[pc].k = "rd" -> FALSE
+      [] list[pc].k = "set" -> kind = "kill" /\ AtChunkEdge(list, pc)
+      [] list[pc].k = "begin" -> FALSE
+      [] OTHER -> TRUE
+
 Step == /\ Running /\ pc <= Len(list)
         /\ disk' = Effect(disk, list[pc])
         /\ trace' = Append(trace, list[pc].n)
@@ -279,7 +313,7 @@ Step == /\ Running /\ pc <= Len(list)
         /\ UNCHANGED <<op, list, mode, fault, acked, live>>
 
 \* kill -9 at the boundary in front of step pc (the step is reached, not executed) ...
-Crash == /\ mode = "run" /\ fault = NoFault /\ pc <= Len(list)
+Crash == /\ mode = "run" /\ fault = NoFault /\ pc <= Len(list) /\ FaultPoint("kill")
          /\ fault' = [k |-> Len(trace) + 1, kind |-> "kill"]
          /\ trace' = Append(trace, list[pc].n)
          /\ disk' = Rollback(disk)
@@ -294,7 +328,7 @@ CrashAcked == /\ mode = "run" /\ fault = NoFault /\ pc = Len(list) + 1 /\ acked 
               /\ UNCHANGED <<op, list, pc, acked, trace, live>>
 
 \* step pc returns an error: not executed; rollback; continue with the handler of its region (or, soft, just go on)
-FailStep == /\ mode = "run" /\ fault = NoFault /\ pc <= Len(list)
+FailStep == /\ mode = "run" /\ fault = NoFault /\ pc <= Len(list) /\ FaultPoint("error")
             /\ fault' = [k |-> Len(trace) + 1, kind |-> "error"]
             /\ trace' = Append(trace, list[pc].n)
             /\ IF list[pc].soft
